@@ -523,3 +523,133 @@ Proof.
        repeat match type of U with context [if ?b then _ else _] => destruct b eqn:? end; cbn in U; try discriminate U.
   all: unfold canceled in *; match goal with X : _ && _ = true |- _ => apply andb_true_iff in X; destruct X; assumption end.
 Qed.
+
+(* ------------------------------------------------------------------------------------------------ *)
+(* (iv) refinement of the Blocker token (Base/BlockerSpec.v)                                        *)
+(* ------------------------------------------------------------------------------------------------ *)
+
+(* is the verdict the coroutine is about to report justified by the abstract object? *)
+Definition justified (s : st) : bool :=
+  reason_ok (now s) (cbit s) (abs s) (call_deadline s) (verdict_of (para s)).
+
+(* the Blocker-token event a transition of the model stands for.  Linearisation points: unpark = the
+   state.swap(true); park_enter = the call; resume = the clearing access of check_park (first check: together
+   with the return; after a resume: the store / swap of the second check_park). *)
+Definition park_ev (s : st) (a : action) : option bev :=
+  match a with
+  | AUnSwap _ => Some BUnpark
+  | APark d => Some (BEnter (match armed_of d with Some x => Some (now s + x) | None => None end))
+  | AU => match up s with
+          | UCp1Store => Some (BResume VOk)
+          | UCp1Swap => if pstate s then Some (BResume VOk) else None
+          | UCp2Store | UCp2Swap =>
+              Some (if justified s then BResume (verdict_of (para s)) else BSpurious (verdict_of (para s)))
+          | UCc | UWkY3 => if canceled s then Some BAbort else None
+          | _ => None end
+  | _ => None
+  end.
+
+Lemma abs_eq s s' : pstate s' = pstate s -> in_park (up s') = in_park (up s) -> ud s' = ud s -> tcall s' = tcall s ->
+  abs s' = abs s.
+Proof. intros A B C D. unfold abs, call_deadline. rewrite A, B, C, D. reflexivity. Qed.
+
+(* the verdict is not touched between the second check_park and the return *)
+Lemma verdict_stable s a s' : ReachF s -> stepF s a = Some s' ->
+  match up s with UCp2Store | UCp2Swap | URm => True | _ => False end -> para s' = para s.
+Proof.
+  intros R H U. destruct (invs s R) as ([Ipl Ihun Ihcn Ihtm Irun Isusp Iwk [Inn Ine] Ipre Icd] & _).
+  destruct a.
+  all: step_inv H.
+  all: try contradiction.
+  all: pre Ipl.
+  all: try contradiction.
+  all: cbn; try reflexivity.
+  all: holder_fact; fin.
+Qed.
+
+Theorem park_refines_blocker s a s' : ReachF s -> stepF s a = Some s' ->
+  match a with
+  | ANewPark _ => abs s' = binit                      (* a fresh Blocker: a new abstract object *)
+  | _ => match park_ev s a with
+         | Some e => bstep (now s) (cbit s) (abs s) e = Some (abs s')
+         | None => abs s' = abs s end
+  end.
+Proof.
+  intros R H. destruct (invs s R) as ([Ipl Ihun Ihcn Ihtm Irun Isusp Iwk [Inn Ine] Ipre Icd] & _ & I3 & _).
+  pose proof (store_tok s I3) as St.
+  destruct a.
+  all: step_inv H.
+  all: pre Ipl.
+  all: unfold park_ev, justified, abs, call_deadline, clear_tok, canceled in *; cbn; rw; cbn.
+  all: try reflexivity.
+  all: try solve [repeat match goal with
+                         | |- context [if ?b then _ else _] => destruct b eqn:?
+                         | |- context [match ?x with _ => _ end] => destruct x eqn:?
+                         end; cbn in *; rw; cbn in *; try reflexivity; try congruence].
+  all: try solve [match goal with
+                  | |- context [reason_ok ?a ?b ?c ?d ?e] => destruct (reason_ok a b c d e) eqn:J
+                  end; cbn; try rewrite J; reflexivity].
+  all: try solve [destruct (cbit s); cbn in *; try discriminate; reflexivity].
+Qed.
+
+(* On a fresh Blocker the resume is never spurious: the verdict is justified by the abstract object at the
+   linearisation point (token set for Ok, deadline of the call passed for Timeout, cancel bit for Canceled).
+   Together with park_refines_blocker: a fresh Park produces BUnpark / BEnter / BResume / BAbort only. *)
+Theorem fresh_park_never_spurious s : ReachF s -> fresh s ->
+  up s = UCp2Store \/ up s = UCp2Swap -> justified s = true.
+Proof.
+  intros R F U. destruct (invs s R) as (_ & I2 & I3 & _ & _). unfold fresh in F.
+  pose proof (p_w s I3) as Pw. pose proof (store_tok s I3) as St. pose proof (c2s s I3) as C2.
+  pose proof (s4 s I3) as S4. pose proof (w_dl s I2) as Wd.
+  unfold justified, reason_ok, abs. cbn [btok].
+  assert (PW : pw s) by (destruct U as [U|U]; rewrite U in Pw; exact Pw). unfold pw in PW.
+  destruct (para s) as [[|]|] eqn:P; cbn [verdict_of].
+  - (* Timeout *)
+    assert (D : exists c, call_deadline s = Some c /\ c <= now s).
+    { destruct (wsrc s) as [|b|[|]| | |]; try contradiction; auto. lia. }
+    destruct D as (c & D & L). rewrite D. apply Z.leb_le. exact L.
+  - exact PW.
+  - (* Ok *)
+    destruct U as [U|U]; rewrite U in *; [exact St|].
+    destruct (wsrc s) as [|[|]|b| | |]; try contradiction. lia.
+Qed.
+
+(* for the shared Park the same event may be BSpurious, and only for the two stale sources *)
+Theorem spurious_resume_sources s : ReachF s -> up s = UCp2Store \/ up s = UCp2Swap -> justified s = false ->
+  (wsrc s = WUn true \/ wsrc s = WTm true) /\ (2 <= ncall s)%nat.
+Proof.
+  intros R U J. destruct (invs s R) as (_ & I2 & I3 & _ & _).
+  destruct (Nat.le_gt_cases (ncall s) 1) as [F|F].
+  - rewrite (fresh_park_never_spurious s R F U) in J. discriminate.
+  - split; [|lia].
+    pose proof (p_w s I3) as Pw. pose proof (store_tok s I3) as St. pose proof (c2s s I3) as C2. pose proof (w_dl s I2) as Wd.
+    unfold justified, reason_ok, abs in J. cbn [btok] in J.
+    assert (PW : pw s) by (destruct U as [U|U]; rewrite U in Pw; exact Pw). unfold pw in PW.
+    destruct (para s) as [[|]|] eqn:P; cbn [verdict_of] in J.
+    + destruct (wsrc s) as [|b|[|]| | |]; try contradiction; auto;
+        destruct Wd as (c & D & L); rewrite D in J; apply Z.leb_gt in J; lia.
+    + congruence.
+    + destruct U as [U|U]; rewrite U in *; [congruence|].
+      destruct (wsrc s) as [|[|]|b| | |]; try contradiction; auto.
+Qed.
+
+(* ------------------------------------------------------------------------------------------------ *)
+(* Park::drop never waits for ever (the repair of F12)                                              *)
+(* ------------------------------------------------------------------------------------------------ *)
+
+(* Park::drop polls wait_kernel; while it is set the kernel half has a next step (it never waits for the
+   coroutine it resumed), and that step is towards the release of the guard *)
+Theorem drop_never_blocked s : ReachF s -> dropping s = true -> wk s = true -> enabled s AK.
+Proof.
+  intros R D W. destruct (invs s R) as (I1 & I2 & _ & _ & I5).
+  apply kernel_enabled; auto.
+  - intros X. pose proof (i_wk s I1) as G. rewrite X, W in G. discriminate.
+  - intros X. apply (k_now s I5 X).
+Qed.
+
+(* general schedules reach reachable states *)
+Lemma run_reach_gen f8 f12 l : forall s s', Reach f8 f12 s -> run f8 f12 s l = Some s' -> Reach f8 f12 s'.
+Proof.
+  induction l as [|a l IH]; cbn; intros s s' R H; [inversion H; subst; exact R|].
+  destruct (step f8 f12 s a) as [s1|] eqn:E; [|discriminate]. eapply IH; [eapply RS; eauto | exact H].
+Qed.
